@@ -47,8 +47,12 @@ def check_witness(r, repo):
                 body = body.replace("    // WITNESS-LINE\n", open(os.path.join(src_dir, "src", "fail_line.txt")).read())
             open(os.path.join(d, "src", "lib.rs"), "w").write(body)
             env = dict(os.environ, CARGO_NET_OFFLINE="true", CARGO_TARGET_DIR=os.path.join(tmp, "target"))
-            p = subprocess.run(["cargo", "check", "--offline", "--message-format=short"], cwd=d, env=env,
-                               stdout=subprocess.PIPE, stderr=subprocess.STDOUT, text=True)
+            for attempt in (1, 2):
+                p = subprocess.run(["cargo", "check", "--offline", "--message-format=short"], cwd=d, env=env,
+                                   stdout=subprocess.PIPE, stderr=subprocess.STDOUT, text=True)
+                # a compiler killed from outside (signal) is not a verdict of the type checker: run it once more
+                if p.returncode == 0 or "error[E" in p.stdout or "(signal:" not in p.stdout:
+                    break
             return p.returncode, p.stdout
         rc, out = build(False)
         if rc == 0:
